@@ -567,6 +567,7 @@ func heapFragments(i int) []string {
 		"H.nw" + n + "=new Function('a','return a+" + n + "');",
 		"var SH" + n + "={wv:'w" + n + "'};function mkw" + n + "(tag){with(SH" + n + "){return function(){return tag+wv}}}H.wa" + n + "=mkw" + n + "('a');H.wb" + n + "=mkw" + n + "('b');",
 		"H.mx" + n + "=(function(){var c=0,f;f=Math.max.bind(null,{valueOf:function(){if(c++%2===0)f(1000);return 1}},2);return f})();",
+		"H.jp" + n + "=JSON.parse('{\"b\":1,\"a\":{\"z\":1,\"y\":2,\"x\":3,\"w\":4},\"c\":[{\"q\":1,\"p\":2,\"o\":3}],\"d\":4,\"e\":5}');",
 		"H.og" + n + "={};H.og" + n + ".a=1;H.og" + n + ".b=2;H.og" + n + ".c=3;H.og" + n + ".d=4;H.og" + n + ".e=5;",
 		"H.pa" + n + "=(function(arguments){return function(){return String(arguments)}})(" + n + ");",
 		"H.em" + n + "={};H.ea" + n + "=[];H.ef" + n + "=function(){};",
